@@ -258,10 +258,10 @@ def model_tie(run, quick):
     coq_cases, kept = [], []
     for p, c, r in zip(uniq, cases, res):
         run.count(["prog", c["prog"]], True, "model-programs")
-        if r.get("outcome") in ("harness-timeout", "timeout") or (r.get("outcome") == "ok" and r["dt"] > 1 + BOUND + 4):
+        if r.get("outcome") == "ok" and "Lua timeout error" in r["out"] and r["dt"] < 11:
+            got = 1           # stopped by the hook (how late is the business of the bound check above, not of the model)
+        elif r.get("outcome") in ("harness-timeout", "timeout") or (r.get("outcome") == "ok" and r["dt"] > 1 + BOUND + 4):
             got = 2           # (the harness's own alarm at 13 s may end the run inside a Python callback: still "not stopped")
-        elif r.get("outcome") == "ok" and "Lua timeout error" in r["out"]:
-            got = 1 if r["dt"] <= 1 + BOUND else 2
         elif r.get("outcome") == "ok" and "done" in r["out"]:
             got = 0
         else:
@@ -270,7 +270,8 @@ def model_tie(run, quick):
         coq_cases.append("(%s, %d%%nat)" % (prog_coq(p), got))
         kept.append((c, got))
     defs = ("Definition verdict (p : prog) : nat := match exec 150 p (mkst 0 true 10) with\n"
-            "  | Some (Ok _) => 0 | Some (Timeout s') => if Nat.ltb 1000 (now s') then 2 else 1 | Some Hung => 2 | None => 2 end.\n")
+            "  | Some (Ok s') => if Nat.ltb 1000 (now s') then 2 else 0 | Some (Timeout s') => if Nat.ltb 1000 (now s') then 2 else 1\n"
+            "  | Some Hung => 2 | None => 2 end.\n")     # (a clock beyond 1000 ticks: the limit was raised, the end lies beyond the watchdog)
     bad, errs = lib.coq_eval_failing("c07m", ["Model.Timeout"], "prog * nat", coq_cases, "fun '(p, o) => Nat.eqb (verdict p) o",
                                      chunk=100, extra_defs=defs)
     for e in errs:
